@@ -420,9 +420,22 @@ func c17BuildNode(w *World, op TxOp, v TxView, _ signature.Signer, fee *transact
 		}
 	}
 	var owner signature.PublicKey
+	// Entities other than the current owner that list the node.
+	var otherListing []*entity.Entity
+	if cur != nil {
+		for _, e := range listing {
+			if !e.ID.Equal(cur.EntityID) {
+				otherListing = append(otherListing, e)
+			}
+		}
+	}
 	switch {
 	case flaw == "notinlist" && len(notListing) > 0:
 		owner = notListing[rr.Intn(len(notListing))].ID
+	case cur != nil && len(otherListing) > 0 && (cur.IsExpired(epoch) || rr.Chance(1, 4)) && rr.Chance(1, 2):
+		// The node tries to move to another entity that lists it (mostly while it is expired but
+		// still kept in the registry).
+		owner = otherListing[rr.Intn(len(otherListing))].ID
 	case cur != nil && !rr.Chance(1, 8):
 		owner = cur.EntityID
 	case len(listing) > 0 && !rr.Chance(1, 8):
